@@ -293,6 +293,53 @@ class BytesScenario(explore.Scenario):
         return w.objs
 
 
+
+FILE_CASES = [(d, n, a) for d in (0, 1, 2, 3, 5, 256)
+              for n in (0, 1, 2, 3, 4, 257) for a in (True, False)]
+
+
+def file_case(case):
+    """One interval record with the given declared size, stored length and
+    address presence, written with the schema's own message class and loaded
+    by the API.  Returns [(signature, detail)]."""
+    import gtirb as g
+    from gtirb.proto import IR_pb2
+
+    dsize, stored, has_addr = case
+    seed_ir = g.IR()
+    g.ByteInterval(
+        address=0x10, size=8, contents=b"\x01\x02",
+        section=g.Section(name="s", module=g.Module(name="m", ir=seed_ir)))
+    buf = io.BytesIO()
+    seed_ir.save_protobuf_file(buf)
+    head, body = buf.getvalue()[:8], buf.getvalue()[8:]
+    msg = IR_pb2.IR()
+    msg.ParseFromString(body)
+    pbi = msg.modules[0].sections[0].byte_intervals[0]
+    pbi.size = dsize
+    pbi.contents = bytes((i % 251) + 1 for i in range(stored))
+    pbi.has_address = has_addr
+    data = head + msg.SerializeToString()
+    what = "file declares size %d, stores %d bytes, %s address" % (
+        dsize, stored, "with" if has_addr else "without")
+    try:
+        ir2 = g.IR.load_protobuf_file(io.BytesIO(data))
+    except Exception as e:  # noqa
+        if stored <= dsize:
+            return [("C19/load-rejects-valid-interval:" + type(e).__name__,
+                     what)]
+        return []
+    bi2 = next(iter(ir2.byte_intervals))
+    got = "%s: loaded with size %r, %d stored" % (what, bi2.size,
+                                                  len(bi2.contents))
+    if stored > dsize:
+        return [("C19/load-accepts-more-stored-bytes-than-size", got)]
+    if (bi2.size, bytes(bi2.contents), bi2.initialized_size) != (
+            dsize, bytes(pbi.contents), stored):
+        return [("C19/loaded-interval-differs-from-file", got)]
+    return []
+
+
 def run(ctx):
     sc = BytesScenario(4 if ctx.tier == "quick" else 5)
     global BASE
@@ -333,6 +380,21 @@ def run(ctx):
                                "detail": "%d stored bytes, initialized_size = "
                                "%d + %d" % (base, base, amt)})
                 break
+    # files, whoever wrote them: every (declared size, stored length, address
+    # presence) of a small domain; more stored bytes than the size must be
+    # rejected, everything else loads with exactly the declared values
+    n_files = 0
+    seen_sigs = set()
+    for case in FILE_CASES:
+        n_files += 1
+        for sig, detail in file_case(case):
+            if sig not in seen_sigs:
+                seen_sigs.add(sig)
+                ctx.violation(sig, {"scenario": "interval-file",
+                                    "file_case": list(case), "detail": detail})
+    cov["interval_files"] = n_files
+    cov["transitions"] += n_files
+    cov["traces_validated_against_impl"] += n_files
     cov["large_growth_cases"] = n_big
     cov["transitions"] += n_big
     cov["traces_validated_against_impl"] += n_big
@@ -352,6 +414,14 @@ def run(ctx):
 
 
 def replay(doc):
+    if doc.get("scenario") == "interval-file":
+        v = file_case(tuple(doc["file_case"]))
+        for s_, d_ in v:
+            print(s_, "--", d_)
+        hit = any(s_ == doc["signature"] for s_, _ in v)
+        print("file case %s: %s" % (doc["file_case"],
+                                    "reproduced" if hit else "NOT reproduced"))
+        return 1 if hit else 0
     sc = BytesScenario(5)
     w = sc.build(doc["init"])
     for op in doc["history"]:
